@@ -214,11 +214,11 @@ def check(ctx):
     adds = find("external_keys.add(M_k)", order, nested=False)
     ctx.count("external_key_add_sites", len(adds))
     ctx.floor("external_key_add_sites", 1)
-    rets = [r for r in returns(order) if r.value is not None and unparse(r.value) == "result"]
+    rets = [r for r in returns(order) if r.value is not None and eqv(r.value, "result")]
     dels = [(d, db) for d, db in find("del result[M_k]", order, nested=False)]
     ok = False
     for d, db in dels:
-        loops = [l for l in enclosing_loops(d) if isinstance(l, ast.For) and unparse(l.iter) == "external_keys" and same(l.target, db["M_k"])]
+        loops = [l for l in enclosing_loops(d) if isinstance(l, ast.For) and eqv(l.iter, "external_keys") and same(l.target, db["M_k"])]
         if loops and rets and all(g.dominates(g.node_of(loops[0]), g.node_of(r)) for r in rets):
             ok = True
     ctx.ob("PAIR.external-keys", adds[0][0], "external_keys.add(k) ... for k in external_keys: del result[k] before return", ok, "" if ok else "artificial external keys leak into the result")
@@ -261,7 +261,7 @@ def check(ctx):
     ok = len(dp) == 1 and len(dd) == 1 and dominates(order, dp[0][0], dd[0][0]) and [d_[2] for d_ in reaching_of(order).reaching(dd[0][0], "dependencies")] == [dp[0][0]]
     ctx.ob("OWN.dependents-from-graph", order, "dependents = reverse_dict(DependenciesMapping(dsk)) -- computed from this graph, including references to keys outside it", ok, "" if ok else "the reverse mapping comes from the caller's `dependencies` argument, which only lists in-graph keys: references to outside keys are no longer detected and ordering an acyclic graph raises")
     # ---------------- data nodes detached from the graph still get a priority: whoever is removed hands its pending ones on
-    norm = [w for w in walk_no_nested(order) if isinstance(w, ast.While) and unparse(w.test) == "not all_tasks"]
+    norm = [w for w in walk_no_nested(order) if isinstance(w, ast.While) and eqv(w.test, "not all_tasks")]
     dels = [d for d in ast.walk(norm[0]) if isinstance(d, ast.Delete) and unparse(d.targets[0]).startswith("dsk[")] if norm else []
     ctx.count("graph_removals", len(dels))
     ctx.floor("graph_removals", 2, "del dsk[leaf] / del dsk[root] in the normalisation loop")
@@ -283,7 +283,7 @@ def check(ctx):
     # ---------------- the key set against which legacy dependencies are resolved must not change under the mapping
     ins = [s for s in walk_no_nested(order) if isinstance(s, ast.Assign) and unparse(s.targets[0]).startswith("dsk[") and dp and dominates(order, dp[0][0], s)]
     dm = model.module("dask/_task_spec.py").func("DependenciesMapping.__getitem__")
-    live = [c for c in calls(dm, "get_dependencies") if c.args and unparse(c.args[0]) == "self.dsk"]
+    live = [c for c in calls(dm, "get_dependencies") if c.args and eqv(c.args[0], "self.dsk")]
     for s in ins:
         ctx.ob("EFFECT.keyset-stable", s, f"{unparse(s)} after DependenciesMapping(dsk) was built", not live, "" if not live else "DependenciesMapping resolves legacy tuples against the live dict (get_dependencies(self.dsk, ...)) and drops its cache on every removal: a literal equal to the inserted key turns into a dependency half-way, counts disagree and an acyclic graph is reported as cyclic")
 
